@@ -511,17 +511,21 @@ def entry_points(chk, repo):
             if not d.is_zero(dL + sum((C_ * ds_ for C_, ds_ in zip(mois, dspins)), X.ZERO)):
                 bad.append('angular momentum: d/dt(mu sqrt(G M a (1 - e^2))) + sum C dspin/dt != 0')
         return bad
-    for arrays in (False, True):
+    from ..core.interp import ArrBox
+    for arrays in (False, True, 'spin', 'orbit'):
         it = Interp(repo, hooks={'call': call_hook, 'branch': branch_hook}, max_depth=12)
-        it.array_mode = arrays
-        mode = ', array inputs' if arrays else ''
+        it.array_mode = arrays is True
+        mode = {False: '', True: ', array inputs', 'spin': ', array spin rate with a scalar orbit', 'orbit': ', array orbital frequency with a scalar spin rate'}[arrays]
         # single body
         M = X.atom('M0', 'pos'); m = X.atom('M1', 'pos'); C = X.atom('C1', 'pos'); spin = X.atom('spin1')
         for obl_on in (False, True):
+            if arrays in ('spin', 'orbit') and obl_on: continue
             kw = dict(host_mass=M, target_radius=X.atom('R1', 'pos'), target_mass=m, target_gravity=X.atom('g1', 'pos'), target_density=X.atom('rho1', 'pos'), target_moi=C,
                       viscosity=X.atom('eta1', 'pos'), shear_modulus=X.atom('mu1', 'pos'), rheology='Maxwell', eccentricity=e, orbital_frequency=n, spin_frequency=spin,
                       calculate_orbit_spin_derivatives=True, eccentricity_truncation_lvl=4)
             if obl_on: kw.update(obliquity=X.atom('I1'), use_obliquity=True)
+            if arrays == 'spin': kw['spin_frequency'] = ArrBox(spin)         # mixed shapes: the scalar side is broadcast by the entry point itself
+            if arrays == 'orbit': kw['orbital_frequency'] = ArrBox(n)
 
             def one(fork, kw=kw):
                 it.hooks['fork'] = fork
@@ -537,6 +541,7 @@ def entry_points(chk, repo):
             lab = f'quick_tidal_dissipation (derivatives requested, obliquity tides {"on" if obl_on else "off"}{mode})'
             chk.ob('R11.9', f'{lab}: the returned heating, da/dt, de/dt and spin-rate derivative balance energy' + ('' if obl_on else ' and angular momentum'), not bad, '; '.join(bad[:2]), mq.where(fs),
                    key=f'R11.9|{lab}', method='whole-function interpretation (real mode summation, compliance stubbed) + GF(p^2) PIT')
+        if arrays in ('spin', 'orbit'): continue
         # dual body
         Ms = (X.atom('M0', 'pos'), X.atom('M1', 'pos')); Cs = (X.atom('C0', 'pos'), X.atom('C1', 'pos')); sps = (X.atom('spin0'), X.atom('spin1'))
         for obl_on in (False, True):
@@ -599,4 +604,4 @@ def entry_points(chk, repo):
             done.append(nm_)
     chk.ob('R11.9', 'quick_dual_body_tidal_dissipation: a call returns the same heating and rates whatever was called before it (four scenarios sharing e and the worlds, in two orders)', not bad,
            '; '.join(bad[:2]), mq.where(fdu), key='R11.9|call-history', method='sequences of calls in one interpreter state vs fresh states, GF(p^2) PIT')
-    chk.floor('R11.9', 9)
+    chk.floor("R11.9", 11)
